@@ -62,7 +62,28 @@ def run(ctx):
     ctx.check("R1", cg, M.has(cg.node, f"if {tok} in ('*', ''):\n    return None"), "star-means-anything", "'*' and '' put no constraint")
     ctx.check("R1", cg, M.has(cg.node, f"if '*' not in {tok}:\n    return values.StrExactMatch({tok})"), "no-star-exact", "a star-free token is an exact match")
     ctx.check("R1", cg, M.has(cg.node, f"if not valid_globbing({tok}):\n    raise ParseError($_)"), "alphabet-checked", "tokens outside the glob alphabet are rejected")
-    ctx.floor("R1", 5)
+    # sibling agreement: every character that is legal in a category, package or slot name is legal in a glob token
+    # (a glob that merely spells part of a real name must not be rejected: `gtk+*`, `lib*++`, `dev-c+*/x`)
+    from ..core import rx, constfold
+    pmod = P.module("pkgcore.util.parserestrict")
+    vg = pmod.assigns.get("valid_globbing")
+    vg_pat = next((x.value for x in ast.walk(vg) if isinstance(x, ast.Constant) and isinstance(x.value, str)), None) if vg is not None else None
+    ctx.require(isinstance(vg_pat, str), "parserestrict.valid_globbing: literal pattern not found")
+    glob_chars = set().union(*rx.classes(vg_pat)) if rx.classes(vg_pat) else set()
+    cm = P.module("pkgcore.ebuild.cpv")
+    legal = set()
+    for nm in ("isvalid_cat_re", "_pkg_re"):
+        v = cm.assigns.get(nm)
+        pat_ = next((x.value for x in ast.walk(v) if isinstance(x, ast.Constant) and isinstance(x.value, str)), None) if v is not None else None
+        ctx.require(isinstance(pat_, str), f"cpv.{nm}: literal pattern not found")
+        for cl in rx.classes(pat_):
+            legal |= cl
+    legal |= {"-"}  # package names are chunks joined by '-'
+    missing = sorted(ch for ch in legal if ch not in glob_chars and ch.isascii())
+    ctx.check("R1", pmod, not missing, "glob-alphabet-covers-names:" + "".join(missing)[:12], "every character legal in a category / package name is legal in a glob token",
+              f"valid_globbing {vg_pat!r} rejects {missing}: characters that category / package names may contain (cpv.isvalid_cat_re, cpv._pkg_re), so a glob spelling part of such a "
+              f"name (`gtk+*`, `lib*++`) raises ParseError while the exact name is accepted", node=vg)
+    ctx.floor("R1", 6)
 
     # ---- R2 accumulator ------------------------------------------------------------------------------
     # the accumulator is the list whose conjunction is returned
@@ -183,3 +204,7 @@ MUTANTS = [
     {"name": "revert-slot-glob-to-atom", "file": F, "old": "    elif text[0] in atom.valid_ops or not (\"*\" in text or slot_globbed):", "new": "    elif text[0] in atom.valid_ops or \"*\" not in text:", "rule": "R5"},
 ]
 TWINS = []
+
+MUTANTS += [
+    {"name": "glob-alphabet-loses-plus", "file": "src/pkgcore/util/parserestrict.py", "old": 'valid_globbing = re.compile(r"^(?:[\\w+-.]+|(?<!\\*)\\*)+$").match', "new": 'valid_globbing = re.compile(r"^(?:[\\w.-]+|(?<!\\*)\\*)+$").match', "rule": "R1"},
+]
